@@ -577,6 +577,6 @@ pub fn main(mut chk: Check) -> ! {
         chk.replay_one::<Case, _>("builder-roundtrip", &p, oracle);
     }
     let t = chk.tier();
-    chk.run("builder-roundtrip", t.pick(6_000, 150_000), case_strategy(), oracle);
+    chk.run("builder-roundtrip", t.pick(40_000, 300_000), case_strategy(), oracle);
     chk.finish()
 }
